@@ -11,7 +11,7 @@ use crate::{
     common::{Prop, Tier, Violation},
     loopcheck,
     looprun::{
-        phase, pick_clock, pick_cost, pick_input_counters, pick_shapes, Cost, Entry, LoopOut,
+        maybe_os_timer, phase, pick_clock, pick_cost, pick_input_counters, pick_shapes, Cost, Entry, LoopOut,
         LoopScn, PanicPlan, Shape,
     },
 };
@@ -125,6 +125,7 @@ fn gen_c02(rng: &mut Rng, tier: Tier) -> LoopScn {
         s.alloc_max_ops = 3;
     }
     s.clock = pick_clock(rng, false);
+    maybe_os_timer(rng, &mut s);
     s
 }
 
@@ -162,6 +163,7 @@ fn gen_c03(rng: &mut Rng, tier: Tier) -> LoopScn {
     s.cost_call = pick_cost(rng, 1, 20);
     s.cost_gen = pick_cost(rng, 0, 10);
     pick_input_counters(rng, &mut s);
+    maybe_os_timer(rng, &mut s);
     s
 }
 
@@ -202,6 +204,7 @@ fn gen_c04(rng: &mut Rng, _tier: Tier, faults: bool) -> LoopScn {
     s.threads = rng.range(1, 3) as usize;
     let quantum = rng.chance(1, 4);
     s.clock = pick_clock(rng, quantum);
+    maybe_os_timer(rng, &mut s);
     // Costs in ticks such that a round is comfortably above 1 ns.
     let unit = (s.clock.frequency / 1_000_000_000).max(1) * 10;
     s.cost_call = pick_cost(rng, unit, unit * 40);
@@ -277,6 +280,7 @@ fn gen_c05(rng: &mut Rng, tier: Tier, faults: bool) -> LoopScn {
     s.threads = rng.range(1, 4) as usize;
     let quantum = rng.chance(1, 4);
     s.clock = pick_clock(rng, quantum);
+    maybe_os_timer(rng, &mut s);
     let unit = (s.clock.frequency / 1_000_000_000).max(1);
     s.sample_size = Some(rng.range(0, 5) as u32);
     s.sample_count = Some(rng.range(0, if thorough { 16 } else { 9 }) as u32);
@@ -397,6 +401,10 @@ fn gen_c11(rng: &mut Rng, _tier: Tier, mode: u64) -> LoopScn {
         read_cost: rng.range(1, 20),
         skew: Vec::new(),
     };
+    // The OS timer path: Instant differences -> Duration -> picoseconds.
+    if mode != 2 {
+        maybe_os_timer(rng, &mut s);
+    }
     s.sample_size = Some(rng.range(1, 3) as u32);
     s.sample_count = Some(rng.range(1, 5) as u32);
     s.cost_call = pick_cost(rng, 0, 1_000_000);
@@ -443,6 +451,7 @@ fn gen_c11(rng: &mut Rng, _tier: Tier, mode: u64) -> LoopScn {
             s.clock.step = *rng.pick(&[1u64, 2, 3, 41, 100, 1000, 4096]);
             s.clock.start = *rng.pick(&[0u64, 7, 1 << 32, 1 << 63]);
             s.clock.read_cost = crate::looprun::unaliased_read_cost(s.clock.step, rng.range((s.clock.step / 3).max(1), s.clock.step));
+            maybe_os_timer(rng, &mut s);
             s.sample_size = None;
             s.sample_count = Some(rng.range(1, 2) as u32);
             // A call far above 100x the precision: tuning ends immediately.
@@ -467,6 +476,7 @@ fn gen_c19(rng: &mut Rng, tier: Tier) -> LoopScn {
         s.clock = pick_clock(rng, false);
         s.precision_override = Some(*rng.pick(&[1u128, 999, 1_000, 41_000, 1_000_000, 1_000_000_000]));
     }
+    maybe_os_timer(rng, &mut s);
     let prec_ps: u128 = s.precision_override.unwrap_or(s.clock.step as u128 * 1_000_000_000_000 / s.clock.frequency as u128).max(1);
     let prec_ticks = (prec_ps * s.clock.frequency as u128 / 1_000_000_000_000).max(1) as u64;
     // Per-iteration cost from far below to far above the precision; the
@@ -639,6 +649,9 @@ impl Case for LoopScn {
         }
         if matches!(r.failure, Some(dsim::Failure::NoProgress { .. })) {
             h.push("step_budget_exhausted");
+        }
+        if self.os_timer {
+            h.push("os_timer_on_the_virtual_clock");
         }
         if self.prelude_threads > 0 {
             h.push("followed_an_earlier_benchmark_on_the_same_pool");
